@@ -34,7 +34,81 @@ import (
 type onceGuard struct {
 	Func        string   `json:"func"`
 	Unpublished []string `json:"unpublished"` // pkg.Type: not yet published whenever the body of Func runs
-	Why         string   `json:"why"`
+	// what the guard at the top of Func looks at (callee or field names): the translator checks that the
+	// entry block of Func still ends in a conditional return that mentions all of them
+	Mentions []string `json:"condition_mentions"`
+	Why      string   `json:"why"`
+}
+
+// guardPresent: the entry block of fn ends in an if, one arm of which returns without doing anything
+// but building the error, and the condition is computed from the mentioned callees / fields
+func guardPresent(fn *ssa.Function, mentions []string) bool {
+	if len(fn.Blocks) == 0 {
+		return false
+	}
+	b := fn.Blocks[0]
+	if len(b.Instrs) == 0 {
+		return false
+	}
+	if _, ok := b.Instrs[len(b.Instrs)-1].(*ssa.If); !ok {
+		return false
+	}
+	seen := map[string]bool{}
+	// the condition may be a short-circuit (a || b): look at the entry block and the blocks reached
+	// before anything else happens (blocks that only compute conditions)
+	blocks := []*ssa.BasicBlock{b}
+	for _, s := range b.Succs {
+		if len(s.Instrs) > 0 {
+			if _, isIf := s.Instrs[len(s.Instrs)-1].(*ssa.If); isIf && len(s.Instrs) <= 4 {
+				blocks = append(blocks, s)
+			}
+		}
+	}
+	for _, blk := range blocks {
+		for _, ins := range blk.Instrs {
+			switch x := ins.(type) {
+			case ssa.CallInstruction:
+				if c := x.Common().StaticCallee(); c != nil {
+					seen[c.Name()] = true
+				}
+				if x.Common().IsInvoke() {
+					seen[x.Common().Method.Name()] = true
+				}
+			case *ssa.FieldAddr:
+				if st, _ := structOf(x.X.Type()); st != nil {
+					seen[st.Field(x.Field).Name()] = true
+				}
+			}
+		}
+	}
+	for _, m := range mentions {
+		if !seen[m] {
+			return false
+		}
+	}
+	// one arm returns early: a block (or its single successor) that ends in Return and has no store
+	early := false
+	for _, blk := range blocks {
+		for _, s := range blk.Succs {
+			hasStore, returns := false, false
+			for _, ins := range s.Instrs {
+				switch x := ins.(type) {
+				case *ssa.Store:
+					if !localAddr(x.Addr) { // (varargs slices of a log call are local)
+						hasStore = true
+					}
+				case *ssa.MapUpdate:
+					hasStore = true
+				case *ssa.Return:
+					returns = true
+				}
+			}
+			if returns && !hasStore {
+				early = true
+			}
+		}
+	}
+	return early && len(mentions) > 0
 }
 
 type pubExempt struct {
@@ -783,6 +857,10 @@ func (a *analyzer) onceGuard(fn *ssa.Function, held []heldItem) (rest, dropped [
 		if g.Func != name {
 			continue
 		}
+		if !guardPresent(fn, g.Mentions) {
+			a.notes["once_guard_not_found_in_"+name]++
+			return held, nil
+		}
 		for _, x := range held {
 			drop := false
 			if a.classKind[x.class] == kindPub {
@@ -819,4 +897,20 @@ func (a *analyzer) dropNewMarkers(exit, entry []heldItem) []heldItem {
 		return exit
 	}
 	return out
+}
+
+// localAddr: the address is inside a local allocation of the function
+func localAddr(v ssa.Value) bool {
+	for {
+		switch x := v.(type) {
+		case *ssa.Alloc:
+			return true
+		case *ssa.IndexAddr:
+			v = x.X
+		case *ssa.FieldAddr:
+			v = x.X
+		default:
+			return false
+		}
+	}
 }
